@@ -291,6 +291,19 @@ func decodeValueOnce(dec valueDecoder, param string, sm *openapi3.SerializationM
 			}
 			// a member without a type (only constraints) says nothing about how to read the text
 			if v != nil {
+				// object members describe one object between them: it has the properties of each
+				if obj, ok := v.(map[string]any); ok {
+					if prev, ok := value.(map[string]any); ok && prev != nil {
+						merged := make(map[string]any, len(prev)+len(obj))
+						for k, e := range prev {
+							merged[k] = e
+						}
+						for k, e := range obj {
+							merged[k] = e
+						}
+						v = merged
+					}
+				}
 				value = v
 			}
 		}
